@@ -89,11 +89,11 @@ class Elem:
             self.kind = 'dec'
             self.witness = lambda ev: {'decimal': str(dv)}
         elif pt == 'datetime':
-            d = SymDate(name)
+            d = SymDate(name, fmt=cfg.get('field_date_format', '%y%m%d'))
             self.value = d
             self.expect = d
             self.kind = 'date'
-            self.witness = lambda ev: {'date': True}
+            self.witness = lambda ev: d.witness(ev)
         elif proc == 'PDS':
             # a carrier given directly: one well-formed sub-element  tag(4) len(3) value
             L = sym_int(name + '_pdslen', 0, 200 if maxvar is None else min(maxvar, 992))
